@@ -5,8 +5,8 @@
 
 use crate::havok::byte_reader::ByteReader;
 use crate::havok::object::{
-    HavokInteger, HavokObject, HavokObjectType, HavokObjectTypeMember, HavokRootObject, HavokValue,
-    HavokValueType,
+    HavokInteger, HavokObject, HavokObjectType, HavokObjectTypeMember, HavokReal, HavokRootObject,
+    HavokValue, HavokValueType,
 };
 use crate::havok::slice_ext::SliceByteOrderExt;
 use core::cell::RefCell;
@@ -377,19 +377,17 @@ impl<'a> HavokBinaryTagFileReader<'a> {
     }
 
     fn default_value(type_: HavokValueType) -> HavokValue {
-        if type_.is_vec() {
-            HavokValue::Array(
-                (0..type_.vec_size())
-                    .map(|_| Self::default_value(type_.base_type()))
-                    .collect::<Vec<_>>(),
-            )
-        } else if type_.is_array() || type_.is_tuple() {
+        if type_.is_array() || type_.is_tuple() {
             HavokValue::Array(Vec::new())
+        } else if type_.is_vec() {
+            HavokValue::Vec(vec![HavokReal::default(); type_.vec_size() as usize])
         } else {
             match type_ {
                 HavokValueType::EMPTY => HavokValue::Integer(HavokInteger::default()),
                 HavokValueType::BYTE => HavokValue::Integer(HavokInteger::default()),
                 HavokValueType::INT => HavokValue::Integer(HavokInteger::default()),
+                HavokValueType::REAL => HavokValue::Real(HavokReal::default()),
+                HavokValueType::STRING => HavokValue::String(Arc::from("")),
                 HavokValueType::OBJECT => HavokValue::ObjectReference(0),
                 _ => panic!("unimplemented {}", type_.bits()),
             }
